@@ -80,10 +80,18 @@ def run_case(case, ctx):
     if g in ("congruence_generic", "congruence_equivalent"):
         absolute = bool(rs.rand() < 0.6) or g == "congruence_equivalent" and bool(rs.rand() < 0.7)
         F1 = [nonzero_cols(gen.arr(rs, [n, R], dt, gen.choice(rs, ["gauss", "int", "scaled"]))) for n in rows]
+        cplx = bool(absolute and dt == "float64" and rs.rand() < 0.12)
+        if cplx:
+            # factor matrices of a complex CP model: the cosine of two complex columns is |x^H y| / (|x||y|), a rescaled copy may carry
+            # any complex scale
+            F1 = [f + 1j * rs.standard_normal(f.shape) for f in F1]
+            ctx.count("congruence_complex")
         if g == "congruence_generic":
             F2 = [nonzero_cols(gen.arr(rs, [n, R], dt, "gauss")) for n in rows]
+            if cplx:
+                F2 = [f + 1j * rs.standard_normal(f.shape) for f in F2]
             if rs.rand() < 0.3:  # near-copies: hard instances with close competitors
-                F2 = [(f + 0.3 * gen.arr(rs, f.shape, dt)).astype(dt) for f in F1]
+                F2 = [(f + 0.3 * gen.arr(rs, f.shape, dt)).astype(f.dtype) for f in F1]
         else:
             perms = list(itertools.permutations(range(R)))
             p = np.array(perms[case["idx"] // len(GENS) % len(perms)] if R <= 4 else rs.permutation(R))
@@ -93,7 +101,9 @@ def run_case(case, ctx):
                 sc = rs.uniform(0.3, 3, R)
                 if absolute:
                     sc = sc * rs.choice([-1, 1], R)
-                F2.append((f[:, p] * sc).astype(dt))
+                if cplx:
+                    sc = sc * np.exp(1j * rs.uniform(0, 2 * np.pi, R))
+                F2.append((f[:, p] * sc).astype(f.dtype))
         # array objects may be shared: a mode given as the very same array in both lists (a known, fixed mode), or one array repeated in
         # several positions of a list (symmetric models [U, U, W]); only the values count
         sharing = "none"
@@ -109,7 +119,7 @@ def run_case(case, ctx):
                     sharing = "object-repeated-within-a-list"
         single = nm == 1 and bool(rs.rand() < 0.5)
         a1, a2 = (F1[0], F2[0]) if single else (list(F1), list(F2))
-        desc = {"gen": g, "rows": rows, "rank": R, "absolute": absolute, "dtype": dt, "single": single, "sharing": sharing}
+        desc = {"gen": g, "rows": rows, "rank": R, "absolute": absolute, "dtype": "complex128" if cplx else dt, "single": single, "sharing": sharing}
         ctx.count("sharing/" + sharing)
         # the flag as a caller's arithmetic produces it (a NumPy boolean from a comparison, 0/1)
         _FLAG_TURN[0] += 1
@@ -276,6 +286,10 @@ def run_case(case, ctx):
         shp = gen.shape(rs, order, 2, 6)
         R = int(rs.randint(1, 5))
         factors = [nonzero_cols(gen.arr(rs, [s, R], dt, "gauss")) for s in shp]
+        pc = bool(dt == "float64" and rs.rand() < 0.12)
+        if pc:
+            factors = [f + 1j * rs.standard_normal(f.shape) for f in factors]     # a complex CP model
+            ctx.count("permute_complex")
         w = rs.uniform(0.5, 2, R).astype(dt)
         Cc = np.ones((R, R))
         for f in factors:
@@ -285,7 +299,9 @@ def run_case(case, ctx):
             return
         p = rs.permutation(R)
         scal = [rs.uniform(0.5, 2, R) * rs.choice([-1, 1], R) for _ in range(order)]
-        t = cpm.CPTensor(((w[p] / np.prod(scal, axis=0)).astype(dt), [(f[:, p] * s).astype(dt) for f, s in zip(factors, scal)]))
+        if pc:
+            scal = [s_ * np.exp(1j * rs.uniform(0, 2 * np.pi, R)) for s_ in scal]
+        t = cpm.CPTensor(((w[p] / np.prod(scal, axis=0)).astype(np.complex128 if pc else dt), [(f[:, p] * s).astype(f.dtype) for f, s in zip(factors, scal)]))
         refc = cpm.CPTensor((w.copy(), [f.copy() for f in factors]))
         how_ref = gen.choice(rs, ["object", "object", "grown-object", "grown-attributes", "tuple"])
         if how_ref == "grown-object":
